@@ -16,7 +16,8 @@ EXTENDS Integers, Sequences, FiniteSets, TLC
 CONSTANTS Reqs,       \* request tags, 1..R
           N,          \* configured request cache size
           SndTo, RcvTo, ConTo,   \* timeouts (seconds); 0 = immediate
-          MaxReq      \* requests per one-second round
+          MaxReq,     \* requests per one-second round
+          Http        \* FALSE: the TCP async client (one stream); TRUE: the HTTP async client (net_http_curl_async.c): one HTTP exchange per request
 
 VARIABLES st,      \* r -> "new" | "queued" | "sent" | "resp" | "err" | "done" | "refused"
           id,      \* r -> request id (0 = none)
@@ -25,7 +26,8 @@ VARIABLES st,      \* r -> "new" | "queued" | "sent" | "resp" | "err" | "done" |
           sigok,   \* r -> the stored response yields a signature for r's hash
           sendq,   \* transport output queue (sequence of r)
           respq,   \* transport input queue: PDUs read from the stream, not yet processed
-          wire,    \* PDUs the server has written that the client has not read yet
+          wire,    \* TCP: PDUs the server has written that the client has not read yet.  HTTP: exchanges that have completed since the last run,
+                   \*      in completion order: [x |-> request, res |-> "body" | "curlerr" | "httperr", msgs |-> <<PDUs of the body>>, junk |-> the body ends in bytes that are no TLV]
           conn,    \* "none" | "connecting" | "ready"
           connT, rStart, rCount,
           peer,    \* "open" | "closed" | "reset"     (environment)
@@ -36,21 +38,23 @@ VARIABLES st,      \* r -> "new" | "queued" | "sent" | "resp" | "err" | "done" |
           ret,     \* ghost: r -> number of times handed back
           early,   \* ghost: r -> a valid reply with r's id was read from the stream while r was still waiting to be sent
           arrived, \* ghost: r -> a valid status-0 reply with r's id was read from the stream while r was "sent"
+          xdone,   \* HTTP, environment: requests whose exchange has completed (each exchange completes at most once)
           out      \* observation: what the last public call returned
 
-vars == <<st, id, addT, sndT, cause, sigok, sendq, respq, wire, conn, connT, rStart, rCount, peer, pollm, openm, clock, usedIds, ret, arrived, early, out>>
+vars == <<st, id, addT, sndT, cause, sigok, sendq, respq, wire, conn, connT, rStart, rCount, peer, pollm, openm, clock, usedIds, ret, arrived, early, xdone, out>>
 
 Live == {"queued", "sent", "resp", "err"}
 Outstanding(s) == {r \in Reqs : s[r] \in Live}
 NoCause == <<"-", 0>>
 
 Init == /\ st = [r \in Reqs |-> "new"] /\ id = [r \in Reqs |-> 0]
-        /\ addT = [r \in Reqs |-> 0] /\ sndT = [r \in Reqs |-> 0]
+        /\ addT = [r \in Reqs |-> 0] /\ sndT = [r \in Reqs |-> -1]          \* sndT[r] >= 0 <=> r has been handed to the transport
         /\ cause = [r \in Reqs |-> NoCause] /\ sigok = [r \in Reqs |-> FALSE]
         /\ sendq = <<>> /\ respq = <<>> /\ wire = <<>>
         /\ conn = "none" /\ connT = 0 /\ rStart = -1000 /\ rCount = 0
         /\ peer = "open" /\ pollm = "ready" /\ openm = "ok" /\ clock = 0
         /\ usedIds = {} /\ ret = [r \in Reqs |-> 0] /\ arrived = [r \in Reqs |-> FALSE] /\ early = [r \in Reqs |-> FALSE]
+        /\ xdone = {}
         /\ out = [op |-> "init"]
 
 (* ------------------------------------------------------------------ Add *)
@@ -69,7 +73,7 @@ Add(r, newId) ==
               /\ sendq' = Append(sendq, r)
               /\ usedIds' = usedIds \cup {newId}
               /\ out' = [op |-> "add", r |-> r, rc |-> "OK", id |-> newId]
-    /\ UNCHANGED <<sndT, cause, sigok, respq, wire, conn, connT, rStart, rCount, peer, pollm, openm, clock, ret, arrived, early>>
+    /\ UNCHANGED <<sndT, cause, sigok, respq, wire, conn, connT, rStart, rCount, peer, pollm, openm, clock, ret, arrived, early, xdone>>
 
 (* ------------------------------------------------------------------ Run, as a pipeline over a record *)
 Rec == [st |-> st, sndT |-> sndT, cause |-> cause, sigok |-> sigok, sendq |-> sendq, respq |-> respq, wire |-> wire,
@@ -121,6 +125,26 @@ Dispatch(S) ==
                                      ELSE [s |-> S1, closed |-> FALSE]
            [] OTHER -> Input([S1 EXCEPT !.conn = "ready"])
 
+(* net_http_curl_async.c:317-530 -- the HTTP transport: every queued request becomes an exchange of its own (same round limit, state check and *)
+(* send timeout as the TCP client; no connection to manage); then every exchange that completed is looked at in completion order:           *)
+(*  - a transfer error or an HTTP status 400..599 fails the exchange's request, if that request is still waiting for its response (an       *)
+(*    exchange may outlive its request: a request that timed out, or was completed through another exchange's body, keeps its result --     *)
+(*    the unrepaired code overwrote it: finding F-C13-3)                                                                                    *)
+(*  - a body is taken apart into PDUs which join the response queue, but only if the exchange's own request is still waiting for its       *)
+(*    response (otherwise the whole body is dropped); bytes that are no TLV fail that request as a network error                           *)
+Complete(S, e) ==
+    LET r == e.x IN
+    IF e.res \in {"curlerr", "httperr"}
+      THEN IF S.st[r] = "sent" THEN SetErr(S, {r}, <<IF e.res = "curlerr" THEN "neterr" ELSE "httperr", 0>>) ELSE S
+      ELSE IF S.st[r] # "sent" THEN S
+           ELSE LET S1 == [S EXCEPT !.respq = @ \o e.msgs,
+                                    !.arrived = [q \in Reqs |-> @[q] \/ \E i \in DOMAIN e.msgs : q \in GoodFor(S, e.msgs[i])],
+                                    !.early = [q \in Reqs |-> @[q] \/ \E i \in DOMAIN e.msgs : q \in EarlyFor(S, e.msgs[i])]]
+                IN IF e.junk THEN SetErr(S1, {r}, <<"neterr", 0>>) ELSE S1
+RECURSIVE CompleteAll(_, _)
+CompleteAll(S, es) == IF es = <<>> THEN S ELSE CompleteAll(Complete(S, Head(es)), Tail(es))
+DispatchHttp(S) == [s |-> [CompleteAll(Output([S EXCEPT !.wire = <<>>]), S.wire) EXCEPT !.wire = <<>>], closed |-> FALSE]
+
 (* net_async.c:1143-1286 -- process the response queue in arrival order *)
 Owner(S, m) == {r \in Reqs : S.st[r] \in Live /\ id[r] = m.id}
 RECURSIVE Process(_, _)
@@ -142,7 +166,7 @@ Process(S, errp) ==
                           ELSE IF ~m.fits THEN Process(SetErr(S1, {r}, <<"code", 256>>), errp)
                           ELSE Process([S1 EXCEPT !.st[r] = "resp", !.sigok[r] = m.hashok], errp)
 
-AfterRun == LET d == Dispatch(Rec)
+AfterRun == LET d == IF Http THEN DispatchHttp(Rec) ELSE Dispatch(Rec)
                 p == Process(d.s, -1)
             IN IF d.closed THEN SetErr(p, SentSet(p), <<"closed", 0>>) ELSE p
 
@@ -169,19 +193,24 @@ Run(h) ==
     LET S == AfterRun IN
     /\ IF Finished(S) = {} THEN h = 0 ELSE h \in Finished(S)
     /\ Commit(S, h)
-    /\ UNCHANGED <<id, addT, pollm, openm, clock, usedIds>>
+    /\ UNCHANGED <<id, addT, pollm, openm, clock, usedIds, xdone>>
 
 (* ------------------------------------------------------------------ environment *)
 Env == <<st, id, addT, sndT, cause, sigok, sendq, respq, conn, connT, rStart, rCount, usedIds, ret, arrived, early>>
-ServerWrites(m) == /\ conn # "none" /\ peer = "open"
+(* HTTP: the exchange of a request that has been handed to the transport completes (each exchange at most once; it may outlive its request) *)
+ExchangeCompletes(e) == /\ Http /\ sndT[e.x] >= 0 /\ e.x \notin xdone
+                        /\ wire' = Append(wire, e) /\ xdone' = xdone \cup {e.x}
+                        /\ out' = [op |-> "env"]
+                        /\ UNCHANGED <<Env, peer, pollm, openm, clock>>
+ServerWrites(m) == /\ ~Http /\ conn # "none" /\ peer = "open"
                    /\ wire' = Append(wire, m)
                    /\ out' = [op |-> "env"]
-                   /\ UNCHANGED <<Env, peer, pollm, openm, clock>>
+                   /\ UNCHANGED <<Env, peer, pollm, openm, clock, xdone>>
 PeerEnds(how)   == /\ conn # "none" /\ peer = "open" /\ peer' = how /\ out' = [op |-> "env"]
-                   /\ UNCHANGED <<Env, wire, pollm, openm, clock>>
-SetPoll(m)      == /\ pollm # m /\ pollm' = m /\ out' = [op |-> "env"] /\ UNCHANGED <<Env, wire, peer, openm, clock>>
-SetOpen(m)      == /\ openm # m /\ openm' = m /\ out' = [op |-> "env"] /\ UNCHANGED <<Env, wire, peer, pollm, clock>>
-Tick(n)         == /\ clock' = clock + n /\ out' = [op |-> "env"] /\ UNCHANGED <<Env, wire, peer, pollm, openm>>
+                   /\ UNCHANGED <<Env, wire, pollm, openm, clock, xdone>>
+SetPoll(m)      == /\ pollm # m /\ pollm' = m /\ out' = [op |-> "env"] /\ UNCHANGED <<Env, wire, peer, openm, clock, xdone>>
+SetOpen(m)      == /\ openm # m /\ openm' = m /\ out' = [op |-> "env"] /\ UNCHANGED <<Env, wire, peer, pollm, clock, xdone>>
+Tick(n)         == /\ clock' = clock + n /\ out' = [op |-> "env"] /\ UNCHANGED <<Env, wire, peer, pollm, openm, xdone>>
 
 -----------------------------------------------------------------------------
 (* The property C13 *)
@@ -196,6 +225,11 @@ ResponseOnlyIfValidReplyAfterSend ==
 ResponseOnlyIfValidReply ==
     /\ \A r \in Reqs : st[r] = "resp" => (arrived[r] \/ early[r])
     /\ (out.op = "run" /\ out.h # 0 /\ out.hstate = "resp") => (arrived[out.h] \/ early[out.h])
+(* HTTP, STRICT statement: every request has a connection of its own, so bad data (unauthenticated or unparsable PDU) in the body of one        *)
+(* exchange is a cause that occurred for THAT exchange's request only.  Violated by the design: the response queue does not remember which     *)
+(* exchange a PDU came from and an authentication / parse failure fails every request waiting for a response (named deviation                 *)
+(* ErrorFanOutAcrossExchanges, finding F-C13-4).  badFrom = the requests whose own exchange delivered such a PDU (ghost, MC_AsyncService).     *)
+CauseOnOwnExchange(badFrom) == Http => \A r \in Reqs : (st[r] = "err" /\ cause[r][1] \in {"hmac", "parse"}) => r \in badFrom
 CountsAgree == out.op = "run" =>
                   /\ out.waiting = Cardinality(Outstanding(st))
                   /\ out.pending + out.received = out.waiting
@@ -203,7 +237,7 @@ RefusedOnlyWhenFull == out.op = "add" => (out.rc = "FULL" <=> st[out.r] = "refus
 IdsDistinct == \A a, b \in Reqs : (a # b /\ id[a] # 0 /\ id[a] = id[b]) => FALSE
 (* an error carries a cause that really occurred *)
 RealCause(r, c) ==
-                  \/ c[1] \in {"closed", "parse", "hmac", "neterr", "conto"}
+                  \/ c[1] \in {"closed", "parse", "hmac", "neterr", "conto", "httperr"}
                   \/ c[1] = "sndto" /\ (SndTo = 0 \/ clock - addT[r] > SndTo)
                   \/ c[1] = "rcvto" /\ (RcvTo = 0 \/ clock - sndT[r] > RcvTo)
                   \/ c[1] = "service"
